@@ -26,6 +26,7 @@ struct NodeCfg
 	std::vector<ip::address> ips;
 	int nat = 0; // 0 none, 1 own external address, 2 shared external address, 3 two chained NATs (inner, then own external)
 	ip::address ext; // external v4 address when natted: that of the last NAT on the route
+	bool nat_first_only = false; // only the node's first IPv4 address sits behind the NAT, its second one is public
 };
 
 inline uint8_t tag_byte(int conn_id, int side, int i)
@@ -108,9 +109,9 @@ struct Conn
 	std::vector<Ev> events; // timing trace for the NAT / no-NAT comparison
 	tcp::endpoint peer_ep_storage[k_max_slots];
 	// udp (C13)
-	struct USock { std::unique_ptr<udp::socket> s; int node = 0; udp::endpoint ep; std::vector<uint8_t> rbuf; udp::endpoint from; } usock[k_max_udp];
+	struct USock { std::unique_ptr<udp::socket> s; int node = 0; udp::endpoint ep; std::vector<uint8_t> rbuf; udp::endpoint from; int epoch = 0; } usock[k_max_udp];
 	int nudp = 0;
-	struct USent { int from, to; int64_t t; std::vector<uint8_t> data; };
+	struct USent { int from, to; int64_t t; std::vector<uint8_t> data; udp::endpoint want_from; int dst_epoch = 0; };
 	std::vector<USent> usent;
 	struct UGot { int to; int64_t t; udp::endpoint from; std::vector<uint8_t> data; };
 	std::vector<UGot> ugot;
@@ -138,8 +139,19 @@ struct Conn
 	// what the receiver should see as the source for a sender on node n with real address a
 	ip::address visible_addr(int n, ip::address const& real) const
 	{
-		if (nodes[size_t(n)].nat != 0 && real.is_v4() && nat_enabled) return nodes[size_t(n)].ext;
+		if (behind_nat(n, real) && nat_enabled) return nodes[size_t(n)].ext;
 		return real;
+	}
+	// is that address of node n behind the node's NAT? IPv4 addresses are (all of them, or the first one only); IPv6
+	// addresses are when the plan puts them behind the same IPv4 NAT ("natx": the NAT is not choosy about families)
+	bool behind_nat(int n, ip::address const& a) const
+	{
+		NodeCfg const& c = nodes[size_t(n)];
+		if (c.nat == 0) return false;
+		if (!a.is_v4()) return plan.c("natx") != 0;
+		if (!c.nat_first_only) return true;
+		for (auto const& x : c.ips) if (x.is_v4()) return x == a;
+		return false;
 	}
 
 	void setup_nodes()
@@ -162,7 +174,8 @@ struct Conn
 				std::vector<HopSpec> out;
 				// "nohops": nothing at all between the sockets (every packet is delivered synchronously)
 				if (!plan.c("nohops")) out.push_back(queue_hop(0, plan.c(q + "olat"), 0));
-				if (n.nat != 0 && a.is_v4())
+				n.nat_first_only = n.nat != 0 && plan.c(q + "natfirst") != 0;
+				if (behind_nat(k, a))
 				{
 					if (n.nat == 3)
 					{
@@ -282,6 +295,7 @@ struct Conn
 		else if (o.op == "close_client") do_close_client(int(uint64_t(o.a) % uint64_t(nclients)));
 		else if (o.op == "close_accepted") do_close_slot(int(uint64_t(o.a) % k_max_slots));
 		else if (o.op == "close_acceptor") do_close_acceptor(int(uint64_t(o.a) % uint64_t(nacc)), int(o.b));
+		else if (o.op == "udp_rebind" && nudp >= 1) do_udp_rebind(int(uint64_t(o.a) % uint64_t(nudp)));
 		else if (o.op == "udp" && nudp >= 2) do_udp(int(uint64_t(o.a) % uint64_t(nudp)), int(uint64_t(o.b) % uint64_t(nudp)), int(o.c));
 	}
 
@@ -569,9 +583,10 @@ struct Conn
 	void arm_udp(int u)
 	{
 		USock& s = usock[u];
-		s.s->async_receive_from(asio::buffer(s.rbuf), s.from, [this, u](error_code const& ec, std::size_t n) {
+		int const epoch = s.epoch;
+		s.s->async_receive_from(asio::buffer(s.rbuf), s.from, [this, u, epoch](error_code const& ec, std::size_t n) {
 			ev("udp_recv", u, ec.value(), int64_t(n));
-			if (ec) return;
+			if (ec || epoch != usock[u].epoch) return;
 			USock& s2 = usock[u];
 			UGot g;
 			g.to = u; g.t = now_ns(); g.from = s2.from;
@@ -592,10 +607,34 @@ struct Conn
 		for (int i = 0; i < n; ++i) s.data[size_t(i)] = tag_byte(int(serial), from * 10 + to, i);
 		s.data[0] = uint8_t(serial >> 8); s.data[1] = uint8_t(serial);
 		error_code ec;
+		s.want_from = udp::endpoint(visible_addr(usock[from].node, usock[from].ep.address()), usock[from].ep.port());
+		s.dst_epoch = usock[to].epoch;
 		usock[from].s->send_to(asio::buffer(s.data), usock[to].ep, 0, ec);
 		ev("udp_send", from, ec.value(), n);
 		if (!ec) usent.push_back(s);
 		ctx.hit("udp_datagrams");
+	}
+
+	// the socket object moves to the node's other IPv4 address (close, open, bind): what the receiver sees as the sender is
+	// decided by the route of the address it is bound to now
+	void do_udp_rebind(int u)
+	{
+		USock& s = usock[u];
+		std::vector<ip::address> v4;
+		for (auto const& x : nodes[size_t(s.node)].ips) if (x.is_v4()) v4.push_back(x);
+		if (v4.size() < 2) return;
+		ip::address const other = s.ep.address() == v4[0] ? v4[1] : v4[0];
+		error_code ec;
+		s.s->close(ec);
+		s.s->open(udp::v4(), ec);
+		s.ep = udp::endpoint(other, s.ep.port());
+		s.s->bind(s.ep, ec);
+		if (ec) { fail("nat.udp.rebind", "binding a re-opened UDP socket to the node's other address failed: " + ec.message()); return; }
+		s.s->non_blocking(true);
+		++s.epoch;
+		ev("udp_rebind", u, 0, 0);
+		ctx.hit("udp_socket_rebound_to_other_address");
+		arm_udp(u);
 	}
 
 	// ------------------------------------------------------------ checks
@@ -678,7 +717,7 @@ struct Conn
 				fail("conn.pairing.connect_missing", who + " delivered the connection of connect #" + std::to_string(at.id) + ", whose own completion never came although the connecting socket is still open");
 			int const cn = client_node[at.client];
 			tcp::endpoint const want(visible_addr(cn, at.local_addr), uint16_t(at.local_port));
-			bool const natted = nodes[size_t(cn)].nat != 0 && at.local_addr.is_v4() && nat_enabled;
+			bool const natted = behind_nat(cn, at.local_addr) && nat_enabled;
 			if (natted) ctx.hit("tcp_through_nat");
 			if (R.remote != want)
 				fail(natted ? "nat.tcp.remote_endpoint" : "conn.endpoint.accepted_remote", who + ": accepted socket's remote_endpoint() is " + eps(R.remote)
@@ -708,6 +747,7 @@ struct Conn
 		if (c13)
 		{
 			std::map<std::pair<int, int>, uint32_t> last_serial;
+			std::set<uint32_t> delivered;
 			for (auto const& g : ugot)
 			{
 				if (g.data.size() < 8) { fail("nat.udp.payload", "runt datagram delivered"); continue; }
@@ -715,8 +755,9 @@ struct Conn
 				if (serial >= usent.size()) { fail("nat.udp.payload", "delivered datagram matches no send"); continue; }
 				USent const& s = usent[serial];
 				if (s.to != g.to || s.data != g.data) { fail("nat.udp.payload", "datagram altered or delivered to the wrong socket"); continue; }
-				udp::endpoint const want(visible_addr(usock[s.from].node, usock[s.from].ep.address()), usock[s.from].ep.port());
+				udp::endpoint const want = s.want_from;
 				bool const natted = nodes[size_t(usock[s.from].node)].nat != 0 && nat_enabled;
+				delivered.insert(serial);
 				if (natted) ctx.hit("udp_through_nat");
 				if (g.from != want)
 					fail(natted ? "nat.udp.sender" : "nat.udp.unnatted_sender", "datagram from socket " + std::to_string(s.from) + " reports sender "
@@ -726,7 +767,11 @@ struct Conn
 				if (it != last_serial.end() && it->second > serial) fail("nat.udp.order", "datagrams between two endpoints delivered out of order");
 				last_serial[key] = serial;
 			}
-			if (ugot.size() != usent.size() && plan.c("corecap") == 0) fail("nat.udp.lost", "a datagram sent over a loss-free route was not delivered");
+			if (plan.c("corecap") == 0)
+				for (uint32_t k = 0; k < usent.size(); ++k)
+					// (a datagram on its way when its destination socket moved to another address is lost with the old binding)
+					if (!delivered.count(k) && usent[k].dst_epoch == usock[usent[k].to].epoch)
+					{ fail("nat.udp.lost", "a datagram sent over a loss-free route was not delivered"); break; }
 			for (int u = 0; u < nudp; ++u)
 			{
 				error_code ec;
@@ -889,12 +934,14 @@ struct ConnEngine : Engine
 			if (rng.chance(c13 ? 0.6 : 0.25)) nat = shared_nat ? 2 : 1;
 			if (nat == 1 && rng.chance(0.3)) nat = 3;
 			p.cfg[q + "nat"] = nat;
+			p.cfg[q + "natfirst"] = (nat != 0 && c13 && rng.chance(0.3)) ? 1 : 0;
 			p.cfg[q + "olat"] = rng.pick(std::vector<int64_t>{0, 1000, 1000000, 5000000, 20000000});
 			p.cfg[q + "ilat"] = rng.pick(std::vector<int64_t>{0, 1000, 1000000, 5000000, 20000000});
 		}
 		p.cfg["corelat"] = rng.pick(std::vector<int64_t>{0, 1000000, 10000000, 50000000});
 		p.cfg["nohops"] = rng.chance(0.08) ? 1 : 0;
 		p.cfg["handoff"] = rng.chance(0.25) ? 1 : 0;
+		p.cfg["natx"] = (c13 && rng.chance(0.15)) ? 1 : 0;
 		if (c13 && rng.chance(0.15))
 		{
 			p.cfg["sp_clients"] = rng.range(2, 3);
@@ -938,6 +985,7 @@ struct ConnEngine : Engine
 			else if (u < 0.74) { o.op = "close_accepted"; o.a = int64_t(rng.below(k_max_slots)); }
 			else if (u < 0.78) { o.op = "close_acceptor"; o.a = int64_t(rng.below(uint64_t(na))); o.b = rng.chance(0.5) ? 1 : 0; }
 			else if (u < 0.84) { o.op = "listen"; o.a = int64_t(rng.below(uint64_t(na))); o.b = (rng.chance(0.3) ? 1 : 0) | (rng.chance(0.3) ? 2 : 0); }
+			else if (c13 && rng.chance(0.12)) { o.op = "udp_rebind"; o.a = int64_t(rng.below(k_max_udp)); }
 			else if (c13) { o.op = "udp"; o.a = int64_t(rng.below(k_max_udp)); o.b = int64_t(rng.below(k_max_udp)); o.c = int64_t(rng.below(2000)); }
 			else { o.op = "connect"; o.a = int64_t(rng.below(uint64_t(nc))); o.b = int64_t(rng.below(uint64_t(na))); o.c = int64_t(rng.below(20)); }
 			p.ops.push_back(o);
